@@ -1,2 +1,10 @@
--- C13 property theorems (to be written)
-import Nq.Basic
+/- C13 property theorems (in progress) -/
+import Nq.Local
+import Nq.Spec.LocalSpec
+
+namespace Nq.Props.C13
+open Nq Nq.Local
+
+theorem C13_placeholder : safeext [] = [] := rfl
+
+end Nq.Props.C13
